@@ -590,6 +590,7 @@ func genC09(g *Gen) {
 			g.do(Step{Op: "ToCSV", Recv: i})
 			g.do(Step{Op: "ToJSON", Recv: i})
 			if s := schemaOf(g.frame(i)); len(s.names) > 0 {
+				g.do(Step{Op: "TypedView", Recv: i, Dst: toBS(g.oneOf(append([]string{"nosuch"}, s.names...))), Fl: g.oneOf([]string{"int", "float", "bool", "string", "enum"})})
 				g.do(Step{Op: "View", Recv: i, Dst: toBS(g.oneOf(s.names))})
 			}
 		}
